@@ -153,7 +153,8 @@ def run(ctx, report: Report) -> None:
 
     # ---- R4 ------------------------------------------------------------------------------------------------
     r4 = report.rule('C08-R4', 'values from get_parent() are None-tested before they are dereferenced', floor=5)
-    errs = [e for e in tf.errors if 'css_match.py' in e and any(code in e for code in ('union-attr', 'arg-type', 'index', 'call-arg'))]
+    # only possibly-None dereferences count: an argument-type complaint is not a run-time failure by itself
+    errs = [e for e in tf.errors if 'css_match.py' in e and '[union-attr]' in e and '"None"' in e]
     for e in errs:
         r4.violation(f'mypy {e.split("error:")[-1].strip()[:60]}', e.split(': error')[0], f'type error at a dereference: {e}')
     for q, fn in mmod.functions.items():
